@@ -127,6 +127,7 @@ class WorldGen:
             s["p"] = 0.6
         s["domain"] = "line+call" if r.random() < 0.2 else "line"
         s["observe"] = r.choice((0, 3, 8))
+        s["observe_mut"] = r.choice((0, 1, 2, 4))   # look at the operands right after every k-th candidate-mutation line
         return s
 
     # ------------------------------------------------------------------- pool
